@@ -799,28 +799,33 @@ def shrink_game(cpp_exe, ml_exe, g, step):
         b = [x for x in b if x.get("step") == len(g2["log"]) - 1]
         return (g2, b[0]) if b else None
     cmds = [c for c, _ in g["log"][1:step + 1]]
-    fen = g["fen"]
-    best = fails(fen, cmds)
+    best = fails(g["fen"], cmds)
     if not best:
         return None
-    # drop every non-move command but the last
-    slim = [c for c in cmds[:-1] if c[0] == "move"] + [cmds[-1]]
-    if "undo" not in [c[0] for c in cmds]:
-        r = fails(fen, slim)
-        if r:
-            cmds, best = slim, r
-    # restart from later positions (latest first)
     log = best[0]["log"]
-    starts = [i for i in range(1, len(log) - 1) if log[i][0][0] == "move" and log[i][1]["ret"] == "1"]
-    latest = None
-    for i in reversed(starts):
-        if "undo" in [c[0] for c in cmds]:
-            break
+    last_undo = max([i for i in range(1, len(log)) if log[i][0][0] == "undo"] + [0])
+    # restart from the latest position (after the last undo) from which the failure still shows
+    for i in range(len(log) - 2, last_undo, -1):
+        if "state" not in log[i][1] or log[i][1]["state"]["state"] != "ALIVE":
+            continue
         r = fails(log[i][1]["state"]["fen"], [c for c, _ in log[i + 1:]])
         if r:
-            latest = r
+            best = r
             break
-    return latest or best
+    # turn claims / offers that ended up playing their move into plain moves, drop the rest
+    log = best[0]["log"]
+    if not any(c[0] == "undo" for c, _ in log):
+        slim, n = [], 0
+        for c, res in log[1:-1]:
+            if "state" in res and res["state"]["nmoves"] == n + 1:
+                u = c[1] if c[0] in ("move", "offer") else c[2]
+                slim.append(("move", u, None))
+                n += 1
+        slim.append(log[-1][0])
+        r = fails(best[0]["fen"], slim)
+        if r:
+            best = r
+    return best
 
 
 def game_replay_script(g, upto):
@@ -1347,8 +1352,8 @@ def run(ctx):
         ctx.count("finder_runs")
     if bad:
         # prefer a failing game history / position (position-level Spec) over a bare hash tuple
-        pos_level = [x for x in bad if x["kind"] != "rep"]
-        first = pos_level[0] if pos_level else bad[0]
+        pref = ["game", "uci", "prefix", "setup", "material", "fifty", "rep"]
+        first = sorted(bad, key=lambda x: pref.index(x["kind"]))[0]
         if first["kind"] == "rep":
             first = dict(first)
             first["original_line"] = first["line"]
